@@ -81,6 +81,8 @@ var usedRunner *formula.Runner
 
 var compactCache = map[string]string{}
 
+var extraCalls int
+
 // EvalText parses and evaluates text against data (nil = no map).
 func EvalText(text string, data map[string]interface{}) EvalOut {
 	if Perturb != nil {
@@ -100,8 +102,12 @@ func EvalText(text string, data map[string]interface{}) EvalOut {
 	if data != nil {
 		r.SetThis(data)
 	}
+	// The metamorphic extras below (data snapshot, second evaluation, re-read result, used runner, compact
+	// spelling) run for every one of the first 5000 calls of a process and for every fourth call after that.
+	extraCalls++
+	extras := extraCalls <= 5000 || extraCalls%4 == 0
 	var before string
-	pure := !strings.Contains(text, "$")
+	pure := extras && !strings.Contains(text, "$")
 	if pure && data != nil {
 		before = Snapshot(data, func(string) bool { return true })
 	}
@@ -112,7 +118,7 @@ func EvalText(text string, data map[string]interface{}) EvalOut {
 			return EvalOut{Panic: fmt.Sprintf("evaluating %q changed the caller's data:\nbefore %s\nafter  %s", text, before, after)}
 		}
 	}
-	if !strings.Contains(text, "$") && !strings.Contains(text, "now") && !strings.Contains(text, "toDay") {
+	if extras && !strings.Contains(text, "$") && !strings.Contains(text, "now") && !strings.Contains(text, "toDay") {
 		// Evaluation must leave the tree unchanged: the same parsed tree,
 		// evaluated once more in a fresh runner with the same data (no locals
 		// were written, the text has no '$'), has to give the same outcome.
